@@ -22,7 +22,7 @@ import (
 type script struct {
 	Kind     string `json:"kind"`     // form | renew | refresh
 	Partial  bool   `json:"partial"`  // refresh: partial rollover RPC
-	Relation string `json:"relation"` // same | behind | fork-ok | fork-stale | unknown
+	Relation string `json:"relation"` // same | behind | fork-ok | fork-stale | unknown | wallet-behind
 	Unconf   bool   `json:"unconfirmed"`
 	Large    bool   `json:"large"` // amounts that need two outputs on each side
 	Fault    string `json:"fault"`
@@ -65,7 +65,7 @@ func applicable(s script) bool {
 		return !s.Unconf
 	case "req-foreign-input":
 		// needs a second exchange whose host inputs stay reserved meanwhile
-		return s.Relation == "same" || s.Relation == "behind" || s.Relation == "fork-ok"
+		return s.Relation == "same" || s.Relation == "behind" || s.Relation == "fork-ok" || s.Relation == "wallet-behind"
 	}
 	return true
 }
@@ -160,11 +160,12 @@ func (p *failingPool) V2TransactionSet(basis types.ChainIndex, txn types.V2Trans
 type balances struct{ Spendable, Confirmed, Immature types.Currency }
 
 type outcome struct {
-	Script   script
-	No       int
-	Settings proto4.HostSettings
-	CS       consensus.State // renter's view
-	HostCS   consensus.State
+	Script        script
+	No            int
+	Settings      proto4.HostSettings
+	CS            consensus.State // renter's view
+	HostCS        consensus.State
+	HostWalletTip types.ChainIndex
 
 	// parameters
 	FormParams    proto4.RPCFormContractParams
@@ -305,6 +306,7 @@ func (w *world) run(s script) *outcome {
 	o.Settings = settings
 	rn := w.renterNode(s)
 	o.CS, o.HostCS = w.cmR.TipState(), w.cmH.TipState()
+	o.HostWalletTip, _ = w.H.ws.Tip()
 
 	if s.Kind != "form" {
 		o.Existing = w.contracts[len(w.contracts)-1]
